@@ -7,14 +7,18 @@ TRUE, FALSE, UNKNOWN = 'true', 'false', 'unknown'
 
 
 class Env:
-    def __init__(self, prog, assume):
-        """assume: {variable name: int}"""
+    def __init__(self, prog, assume, preds=()):
+        """assume: {variable name: int}; preds: [(pattern, int)] for values identified structurally"""
         self.prog = prog
         self.assume = assume
+        self.preds = list(preds)
 
     def const(self, e, depth=0):
         if not isinstance(e, tuple):
             return None
+        for pat, v in self.preds:
+            if pat(e):
+                return v
         k = e[0]
         if k in ('param',) and e[2] in self.assume:
             return self.assume[e[2]]
